@@ -245,6 +245,14 @@ export class ValGen {
   }
   scalarMut(v) {
     const r = this.rng;
+    // one character replaced by a neighbour in code-point order or by a character from the middle of
+    // the ASCII ranges (what an accidental character class or range would let through)
+    if (typeof v === "string" && v.length > 0 && r.chance(0.35)) {
+      const i = r.below(v.length);
+      const c = v.charCodeAt(i);
+      const repl = r.pick([String.fromCharCode(c + 1), String.fromCharCode(Math.max(32, c - 1)), "5", "A", "=", ".", "+", "Q", "m", "@", "/"]);
+      return v.slice(0, i) + repl + v.slice(i + 1);
+    }
     if (typeof v === "string")
       return r.pick(["x" + v, v + "y", v.slice(0, Math.floor(v.length / 2)) + "~" + v.slice(Math.floor(v.length / 2)), v.toUpperCase() === v ? v.toLowerCase() + "q" : v.toUpperCase(), "", v + "\n", " " + v, v.length, "-" + v, v + v]);
     if (typeof v === "number") return r.pick([v + 1, -v - 1, v + 0.5, NaN, String(v), v * 2 + 3, null]);
